@@ -60,6 +60,12 @@ def check(run):
                          'fixed-size read requests are created per read (a shared request keeps a stale outstanding count)', 4)
     C01.alias(R, RID='C18.intact')
     C05.awaitables_fresh(R, RID='C18.intact')
+    R.rule('C18.bursts', 'a text payload larger than one read is delivered: the UTF-8 validation state is carried exactly from '
+                         'one read to the next (RFC 3629 automaton, every byte once, state kept between chunks)', 10)
+    with R.as_rule('C18.bursts'):
+        C05.dfa(R)
+        C05.loop(R)
+        C05.track(R)
     R.rule('C18.replies', 'the automatic replies of a cycle cannot abort it: a Pong that write() refuses is swallowed; a '
                           'Close echo of any legal size is written in the cycle that read the Close', 3)
     C14.swallow(R, RID='C18.replies')
